@@ -51,18 +51,6 @@ func propC04(c Case, o *Obs) error {
 	return r.Violation
 }
 
-func TestC04(t *testing.T) {
-	rec := NewRecorder("C04")
-	if os.Getenv("VERIF_REPLAY") == "" && os.Getenv("VERIF_TIER") == "thorough" {
-		shard, _ := strconv.Atoi(os.Getenv("VERIF_SHARD"))
-		nsh, _ := strconv.Atoi(os.Getenv("VERIF_NSHARDS"))
-		if nsh < 1 {
-			nsh = 1
-		}
-		if enumeratePreemptions(rec, "C04", Monitors{M4: true}, shard, nsh) {
-			rec.Flush(false)
-			t.Fatalf("C04 violated by an enumerated schedule")
-		}
-	}
-	RunWith(t, rec, genC04, propC04)
-}
+func TestC04(t *testing.T) { withEnumeration(t, "C04", Monitors{M4: true}, genC04, propC04) }
+
+var _ = strconv.Itoa
